@@ -280,6 +280,91 @@ pub fn run(reg: &dyn Registry, ctx: &Ctx) -> Outcome {
             ctx.violation(&format!("C11:{}:rare-event", info.name), &r.0, r.1);
         }
     }
+    // ---- generators restored from edited images ------------------------------------------------
+    // A generator G' = deserialize(edited image) is a serializable generator like any other (whatever the
+    // deserializer made of the bytes), so the property applies to it: deserialize(serialize(G')) must
+    // have the future of G', and serializing must not disturb G'. The reference copy of G' is a second
+    // deserialisation of the same bytes. Edits: every byte of the image xor 0x01 / 0x80, and a word
+    // at every byte offset of the image set to 0 / all ones (buffered words, table words, counters with special
+    // values), on three states per type.
+    {
+        let mut types2: Vec<&'static dyn GenType> = types.clone();
+        types2.extend(reg.core_types().into_iter().filter(|c| c.info().has_serde));
+        let _: Vec<()> = types2
+            .par_iter()
+            .map(|ty| {
+                let info = ty.info();
+                let is_core = info.family == crate::subject::Family::Core;
+                let mk = SeedMaker { ty: *ty, seed: standard_seeds(*ty, ctx.seed)[1].clone() };
+                let native = if info.word_bits == 32 || is_core { Op::U32 } else { Op::U64 };
+                let bw = info.block_words.unwrap_or(4);
+                let hists: Vec<Vec<Op>> = if is_core { vec![vec![], vec![Op::U32]] } else { vec![vec![], vec![native.clone(); bw / 2 + 3], [vec![native.clone(); bw - 1], vec![Op::U32]].concat()] };
+                let future: Vec<Op> = if is_core { vec![Op::U32, Op::U32, Op::U32] } else { vec![Op::U32, Op::U64, Op::Fill(bw * info.word_bits / 8 + 9), Op::U32, Op::U32, Op::U64] };
+                for h in &hists {
+                    let mut g = mk.make();
+                    for op in h {
+                        apply(&mut g, op);
+                    }
+                    let Some(img) = g.ser() else { return };
+                    let wb = info.word_bits / 8;
+                    let mut edits: Vec<Vec<u8>> = Vec::new();
+                    for p in 0..img.len() {
+                        for flip in [0x01u8, 0x80] {
+                            let mut im = img.clone();
+                            im[p] ^= flip;
+                            edits.push(im);
+                        }
+                    }
+                    // a word at every byte offset (the image layout is the implementation's business)
+                    for off in 0..img.len().saturating_sub(wb - 1) {
+                        for val in [0x00u8, 0xff] {
+                            let mut im = img.clone();
+                            for b in &mut im[off..off + wb] {
+                                *b = val;
+                            }
+                            if im != img {
+                                edits.push(im);
+                            }
+                        }
+                    }
+                    for im in edits {
+                        let Ok(Some(Ok(mut gp))) = guarded(|| ty.de(&im)) else { continue };
+                        let Ok(Some(Ok(mut twin))) = guarded(|| ty.de(&im)) else { continue };
+                        ctx.add("edited_image_generators", 1);
+                        let rep = || json!({"kind":"note","type":info.name,"maker":mk.describe(),"ops":ops_json(h),"edited_image":crate::evidence::hex(&im[..im.len().min(96)]),"image_len":im.len()});
+                        let first_diff = im.iter().zip(img.iter()).position(|(a, b)| a != b).unwrap_or(0);
+                        let r = match roundtrip(*ty, gp.as_ref()) {
+                            Ok((_, r)) => r,
+                            Err(e) => {
+                                ctx.violation(&format!("C11:{}:edited-image-roundtrip", info.name), &format!("{}: a generator restored from an image (state after {}, edited at byte {}) cannot be snapshotted and restored again: {}", info.name, ops_short(h), first_diff, e), rep());
+                                break;
+                            }
+                        };
+                        let mut r = r;
+                        let ot: Vec<Obs> = future.iter().map(|o| apply(&mut twin, o)).collect();
+                        let og: Vec<Obs> = future.iter().map(|o| apply(&mut gp, o)).collect();
+                        let or: Vec<Obs> = future.iter().map(|o| apply(&mut r, o)).collect();
+                        ctx.add("transitions", 3 * future.len() as u64);
+                        if ot.iter().any(|o| o.is_panic()) {
+                            continue; // the edited image describes a state the generator itself cannot run from (C14's business if reachable)
+                        }
+                        if og != ot {
+                            ctx.violation(&format!("C11:{}:edited-image-disturbed", info.name), &format!("{}: serializing a generator restored from an image (state after {}, edited at byte {}) changed its future", info.name, ops_short(h), first_diff), rep());
+                            break;
+                        }
+                        if or != ot {
+                            ctx.violation(
+                                &format!("C11:{}:edited-image-restored-diverges", info.name),
+                                &format!("{}: G' = the generator restored from an image (state after {}, edited at byte {}); deserialize(serialize(G')) returns {:?} under {} where G' returns {:?}", info.name, ops_short(h), first_diff, or.iter().map(|o| o.to_json().to_string().chars().take(40).collect::<String>()).collect::<Vec<_>>(), ops_short(&future), ot.iter().map(|o| o.to_json().to_string().chars().take(40).collect::<String>()).collect::<Vec<_>>()),
+                                rep(),
+                            );
+                            break;
+                        }
+                    }
+                }
+            })
+            .collect();
+    }
     // ---- value-directed probes for the buffered generators -------------------------------------
     // A state whose *buffered* words have special values (a zero / all-ones word at the first, last or
     // next-to-be-read slot) is reachable but rare (1 in 2^32 blocks). It is first built by editing the
